@@ -45,9 +45,31 @@ def rng(tag: str = "") -> random.Random:
 
 # ------------------------------------------------------------------ Coq term printing
 def cstr(s: str) -> str:
-    if any(ord(c) > 126 or (ord(c) < 32 and c not in "\n\t") for c in s):
-        raise ValueError(f"string not representable in the model: {s!r}")
-    return '"' + s.replace('"', '""') + '"'
+    """Coq string literal; characters outside printable ASCII are spelled out byte by byte (UTF-8)."""
+    def plain(c):
+        return 32 <= ord(c) <= 126 or c in "\n\t"
+    if all(plain(c) for c in s):
+        return '"' + s.replace('"', '""') + '"'
+    chunks, cur = [], ""
+    for c in s:
+        if plain(c):
+            cur += c
+        else:
+            if cur:
+                chunks.append(("t", cur))
+                cur = ""
+            for b in c.encode("utf-8"):
+                chunks.append(("b", b))
+    if cur:
+        chunks.append(("t", cur))
+    term = '""'
+    for kind, v in reversed(chunks):
+        if kind == "t":
+            lit = '"' + v.replace('"', '""') + '"'
+            term = f"(String.append {lit} {term})"
+        else:
+            term = f"(String (Ascii.ascii_of_nat {v}) {term})"
+    return term
 
 
 def cbool(b: bool) -> str:
